@@ -7,7 +7,7 @@
 /* callees that are not under proof here: assumed contracts (listed as trusted in the evidence) */
 void realTime_ResetState(void)
 __CPROVER_requires(g_play.m_midiChannels != NULL)
-__CPROVER_assigns(g_reset_calls, __CPROVER_object_whole(g_play.m_midiChannels))
+__CPROVER_assigns(g_reset_calls, g_midiChannels_storage)
 __CPROVER_ensures(g_reset_calls == __CPROVER_old(g_reset_calls) + 1);
 
 void noteUpdateAll(size_t midCh, unsigned props_mask)
@@ -84,17 +84,23 @@ static bool spec_sysex_strict(const uint8_t *m, size_t size, uint8_t devid)
     return m[2] == (0x10 | devid);
 }
 
-/* ghost pair: g_ch ranges over every channel, g_chan_before is that channel's pre-state (tied by a precondition).
- * "channel g_ch still equals g_chan_before" for an arbitrary g_ch = no channel state changed.  The comparison is the
- * typed field-wise equality generated from the extracted struct (verif_types.h). */
-extern size_t g_ch; extern MIDIchannel g_chan_before;
-#define SPEC_CHAN_SAME spec_MIDIchannel_eq(&g_midiChannels_storage[g_ch], &g_chan_before)
-static bool spec_chan_same_but_drum_flag(void)
+/* ghost snapshot of the whole channel table (tied to the pre-state by a precondition).  The comparison walks the
+ * table with constant indices (a symbolic channel index made the array reasoning intractable - measured) and uses
+ * the typed field-wise equality generated from the extracted struct (verif_types.h). */
+extern MIDIchannel g_table_before[ENV_N_MIDI_CHANNELS];
+static bool spec_table_same_except_drum_flag_of(size_t except_ch)   /* ENV_N_MIDI_CHANNELS = no exception */
 {
-    MIDIchannel t = g_chan_before;
-    t.is_xg_percussion = g_midiChannels_storage[g_ch].is_xg_percussion;
-    return spec_MIDIchannel_eq(&g_midiChannels_storage[g_ch], &t);
+    bool ok = true;
+    for(size_t k = 0; k < ENV_N_MIDI_CHANNELS; k++)
+    {
+        MIDIchannel t = g_table_before[k];
+        if(k == except_ch)
+            t.is_xg_percussion = g_midiChannels_storage[k].is_xg_percussion;
+        ok = ok && spec_MIDIchannel_eq(&g_midiChannels_storage[k], &t);
+    }
+    return ok;
 }
+#define SPEC_TABLE_SAME spec_table_same_except_drum_flag_of(ENV_N_MIDI_CHANNELS)
 
 static const uint8_t spec_gs_part_to_channel[16] = { 9, 0, 1, 2, 3, 4, 5, 6, 7, 8, 10, 11, 12, 13, 14, 15 };
 
@@ -105,18 +111,18 @@ bool realTime_SysEx(const uint8_t *msg, size_t size)
 __CPROVER_requires(size <= 64 && __CPROVER_is_fresh(msg, size) && spec_bytes_named(msg, size))
 __CPROVER_requires(ENV_CHANNELS_OK && ENV_SYNTH_OK && ENV_HOOKS_OK)
 /* ghost: g_ch ranges over all channels, g_chan_before is the pre-state of that channel */
-__CPROVER_requires(g_ch < ENV_N_MIDI_CHANNELS && SPEC_CHAN_SAME)
-__CPROVER_assigns(g_play.m_synthMode, g_reset_calls, g_update_calls, __CPROVER_object_whole(g_play.m_midiChannels))
+__CPROVER_requires(SPEC_TABLE_SAME)
+__CPROVER_assigns(g_play.m_synthMode, g_reset_calls, g_update_calls, g_midiChannels_storage)
 __CPROVER_assigns(g_play.m_synth != NULL : g_play.m_synth->m_masterVolume)
 /* only if: accepted => well-formed, addressed, exact length, checksum */
 __CPROVER_ensures(__CPROVER_return_value ==> SX_KIND != SX_NONE)
 /* if: the documented messages addressed to this instance are accepted */
 __CPROVER_ensures(spec_sysex_strict(msg, size, __CPROVER_old(g_play.m_sysExDeviceId)) ==> __CPROVER_return_value)
-/* rejected => mode, master volume, every byte of every channel's controller state, notes (no reset, no update) untouched */
+/* rejected => mode, master volume, every field of every channel's state, notes (no reset, no update) untouched */
 __CPROVER_ensures(!__CPROVER_return_value ==>
     (g_play.m_synthMode == __CPROVER_old(g_play.m_synthMode) && g_reset_calls == __CPROVER_old(g_reset_calls) &&
      g_update_calls == __CPROVER_old(g_update_calls) &&
-     SPEC_CHAN_SAME))
+     SPEC_TABLE_SAME))
 __CPROVER_ensures(!__CPROVER_return_value && g_play.m_synth != NULL ==> g_play.m_synth->m_masterVolume == __CPROVER_old(g_play.m_synth->m_masterVolume))
 /* accepted => documented effect */
 __CPROVER_ensures(__CPROVER_return_value && SX_KIND == SX_GM_ON ==> g_play.m_synthMode == Mode_GM)
@@ -128,11 +134,11 @@ __CPROVER_ensures(__CPROVER_return_value && !SX_IS_MODE_MSG(SX_KIND) ==>
 __CPROVER_ensures(__CPROVER_return_value && SX_KIND == SX_MASTER_VOLUME && g_play.m_synth != NULL ==>
                   g_play.m_synth->m_masterVolume == (msg[6] & 0x7F))
 __CPROVER_ensures(__CPROVER_return_value && SX_KIND == SX_MASTER_VOLUME ==>
-                  SPEC_CHAN_SAME)
+                  SPEC_TABLE_SAME)
 __CPROVER_ensures(__CPROVER_return_value && SX_KIND == SX_GS_DRUM_PART ==>
                   g_play.m_midiChannels[spec_gs_part_to_channel[msg[6] & 0x0F]].is_xg_percussion == ((msg[8] & 0x7F) == 1 || (msg[8] & 0x7F) == 2))
 /* ... and the drum-part message changes that one flag only */
 __CPROVER_ensures(__CPROVER_return_value && SX_KIND == SX_GS_DRUM_PART ==>
-                  (g_ch == spec_gs_part_to_channel[msg[6] & 0x0F] ? spec_chan_same_but_drum_flag() : SPEC_CHAN_SAME))
+                  spec_table_same_except_drum_flag_of(spec_gs_part_to_channel[msg[6] & 0x0F]))
 ;
 #endif
